@@ -45,6 +45,11 @@ def gen(tier, seed, shard, nshards):
             yield "grid", {"p": p, "K": K, "size": size, "replace": replace, "n_seeds": SEEDS[tier], "base": seed}
     # boundary / coverage cells, many seeds
     b = 0
+    for pbig in (65, 100, 130):
+        for (K, size) in ((10, 6), (pbig // 10, 10), (5, (3, 12)), (64, 1), (pbig, 1)):
+            if b % nshards == shard:
+                yield "boundary", {"p": pbig, "K": K, "size": size, "replace": False, "n_seeds": max(20, BSEEDS[tier] // 20), "base": seed}
+            b += 1
     for p in (2, 3, 5, 7, 10):
         cells = [(p, 1, p, True), (p, 1, p, False), (p, p, 1, False), (p, 4, (0, p), True), (p, 3, (1, min(p, 3)), True),
                  (p, max(1, p // 2), (0, 2), False) if 2 * max(1, p // 2) <= p else (p, 1, (0, 1), False),
